@@ -73,6 +73,30 @@ def _(h):
     h.same('second', T.data[1], S.exp(t2).A)
 
 
+@claim('revolute-exp-vector-theta-deg')
+def _(h):
+    """vector theta with units='deg' (concrete axis and point keep the number of paths small; the angles are symbolic)"""
+    S = Twist3.Revolute([0, 0, 2], [1, 2, 0])
+    t1, t2 = h.angle('t1', 0.1, 6.29), h.angle('t2', -6.29, -0.1)
+    T = S.exp([h.deg(t1), h.deg(t2)], units='deg')
+    h.true('two values', len(T) == 2)
+    h.eq('first', T.data[0], S.exp(t1).A, tol=1e-9, scale=10)
+    h.eq('second', T.data[1], S.exp(t2).A, tol=1e-9, scale=10)
+    Ta = S.exp(h.arr([h.deg(t1), h.deg(t2)]), units='deg')
+    h.eq('array form', Ta.data[1], S.exp(t2).A, tol=1e-9, scale=10)
+
+
+@claim('planar-exp-options')
+def _(h):
+    q = h.vec('q', 2, -1e3, 1e3)
+    S = Twist2.Revolute(q)
+    t1, t2 = h.angle('t1', -6.29, 6.29), h.angle('t2', -6.29, 6.29)
+    h.same('deg scalar', S.exp(h.deg(t1), units='deg').A, S.exp(t1).A)
+    T = S.exp([h.deg(t1), h.deg(t2)], units='deg')
+    h.true('two values', len(T) == 2)
+    h.same('deg vector', T.data[1], S.exp(t2).A)
+
+
 @claim('revolute-pole-and-line')
 def _(h):
     S, a, d, q = rev(h)
